@@ -221,6 +221,28 @@ class TreeGen:
         d, ed = {}, {}
         if call_id is not None:
             d["callId"], ed["callId"] = call_id, call_id
+        if kind > 0.955 and call_id is None:
+            # beyond example sizes: a bulk call - more than a hundred input models in one list (some first items null), and a batch of a dozen or more distinct files
+            n_models = self.rng.randrange(101, 140)
+            items, eitems = [], []
+            for i in range(n_models):
+                if i in (0, 57) and self.rng.random() < 0.3:
+                    items.append(None)
+                    eitems.append(None)
+                    continue
+                m, e = self.leaf_model("variables.batch.%d" % i, False)
+                items.append(m)
+                eitems.append(e)
+            d["batch"], ed["batch"] = items, eitems
+            self.features.add("scale.list_of_100plus_models")
+            if allow_upload:
+                ups, eups = [], []
+                for i in range(self.rng.randrange(11, 24)):
+                    u, e = self.upload("variables.attachments.%d" % i)
+                    ups.append(u)
+                    eups.append(e)
+                d["attachments"], ed["attachments"] = ups, eups
+                self.features.add("scale.11plus_uploads")
         for i in range(self.rng.randrange(1, 5)):
             k = self.rng.choice(["v%d" % i, "camelVar%d" % i, "snake_var_%d" % i, "id", "query", "file"])
             if k in d:
@@ -468,7 +490,7 @@ async def one_case(r: core.Run, deps, rng_seed: int, idx: int):
     exp_vars = exp_files = None
     kwargs = None
     for variant in VARIANTS:
-        tg = TreeGen(deps, random.Random(rng_seed * 7919 + idx), feats)
+        tg = TreeGen(deps, random.Random(rng_seed * 7919 + idx + 104729), feats)
         variables, exp_vars = tg.variables(allow_upload)
         exp_files = tg.expected_files()
         if kwargs is None:
